@@ -32,6 +32,8 @@ VIEW_LIKE_OPS = (
     memref.MemorySpaceCastOp,
     memref.ReinterpretCastOp,
     snax.LayoutCast,
+    # selects one of two buffers (double buffering): the result is either of them
+    arith.SelectOp,
 )
 
 
